@@ -138,4 +138,35 @@ def run(rep):
         elif rec['b'] % 16 == 1:
             rep.sample({'meta': meta, 'site': rec['site'], 'P': rec['P'][:4], 'collected': rec['got'][:4]})
     rep.traces += len(recs)
+    # ---- beyond TLC's 32-bit integers: sites a few 1e-7 off a special position (see harness/shape_fine.py).  The Python mirror of the
+    # spec's membership rule is first bound to the spec: on every regular case TLC accepted it must count exactly the collected points.
+    from .. import shape_fine as sf
+    for rec, (v, _) in zip(recs, verdicts):
+        if v == 'ok' and rec['R'] == 0:
+            mc = sf.mirror_count(rec['G'], rec['N'], rec['N'] // 48, rec['ops'], rec['site'], rec['P'], rec['thr'])
+            if mc != len(rec['got']):
+                raise core.Machinery(f'shape_fine.mirror_count disagrees with TraceShape on case {rec["b"]}: {mc} vs {len(rec["got"])}')
+    n_fine = n_bad = 0
+    for b in range(40 if quick else 600):
+        sg, fam = GROUPS[b % len(GROUPS)]
+        G = EXTRA_FAMILIES.get(fam) or gen.FAMILIES[fam]
+        r_ = sf.make_fine_case(rng, sg, fam, ['chol', 'pmg', 'rot'][b % 3], sf.ops_of(sg, G), G)
+        if r_ is None:
+            continue
+        n_fine += 1
+        got, expd, dmax, rad, meta = r_
+        rep.evaluations += 1
+        rep.nontrivial += 1
+        clause = None
+        if got != expd:
+            clause = 'number-of-collected-points-near-special-position'
+        elif dmax >= rad:
+            clause = 'collected-point-outside-radius-near-special-position'
+        if clause and n_bad < 3:
+            n_bad += 1
+            rep.violation({'kind': 'fine-grid', 'clause': clause, 'collected': got, 'expected': expd, 'largest_distance': dmax, 'meta': meta})
+    rep.traces += n_fine
+    rep.extra['fine_grid_cases_near_special_positions'] = n_fine
+    if n_fine == 0:
+        raise core.Machinery('no fine-grid case could be generated')
     rep.exhaustive = True
